@@ -296,6 +296,12 @@ V['C14'] += [
     ('floor statement with the test turned around', EXT, "        abserr = max(abserr, 5.0*_EPS*abs(result))", "        floor = 5.0*_EPS*abs(result)\n        if floor < abserr:\n            abserr = floor", 'F', 'R-DEA-FLOOR'),
 ]
 
+V['C10'] += [
+    ('nominal step through np.where', SG, "    return np.log(1.718281828459045 + np.abs(x)).clip(min=1)", "    nominal = np.log(1.718281828459045 + np.abs(x))\n    return np.where(nominal > 1, nominal, 1)", 'S', None),
+    ('nominal step through np.maximum', SG, "    return np.log(1.718281828459045 + np.abs(x)).clip(min=1)", "    return np.maximum(np.log(1.718281828459045 + np.abs(x)), 1)", 'S', None),
+    ('nominal step through a masked store', SG, "    return np.log(1.718281828459045 + np.abs(x)).clip(min=1)", "    nominal = np.asarray(np.log(1.718281828459045 + np.abs(x)))\n    nominal[nominal < 1] = 1\n    return nominal", 'S', None),
+]
+
 def apply_variant(root, fname, old, new):
     """-> scratch dir or None when the anchor is not present"""
     src = os.path.join(root, 'src', 'numdifftools', fname)
